@@ -149,6 +149,23 @@ theorem disc_exec (s : S C R W D) (t : Tid) (i : Instr R W D) (rest : List (Inst
     obtain ⟨x, ⟨y, hy, rfl⟩, hxu⟩ := hu
     refine ⟨y, hy, ?_⟩
     split at hxu <;> exact hxu
+  | sessBase sid b =>
+    simp only [exec]
+    refine disc_adv h hp ?_ (Or.inl (by simp)) (fun u hu => by simp [upd_other _ _ _ _ hu])
+    intro u hu
+    simp only [holdsSession, List.any_eq_true, List.mem_map] at hu ⊢
+    obtain ⟨x, ⟨y, hy, rfl⟩, hxu⟩ := hu
+    refine ⟨y, hy, ?_⟩
+    split at hxu <;> exact hxu
+  | finChk sid =>
+    simp only [exec]
+    split
+    · intro u hu
+      have hu' : holdsSession s u = true := hu
+      by_cases hut : u = t
+      · subst hut; simp [noABlock]
+      · simp only [upd_other _ _ _ _ hut]; exact h u hu'
+    · exact disc_adv h hp (fun u hu => hu) (Or.inl (by simp)) (fun u hu => by simp [upd_other _ _ _ _ hu])
   | ret r =>
     simp only [exec]
     exact disc_adv h hp (fun u hu => hu) (Or.inr (by simp)) (fun u hu => by simp [upd_other _ _ _ _ hu])
@@ -448,6 +465,7 @@ theorem unblocked_step (s : S C R W D) (t : Tid) (i : Instr R W D) (rest : List 
     · simp
     · split <;> simp
   · cases i <;> simp [Instr.isEff] at hi <;> simp at h <;> simp [exec, h]
+    · split <;> simp
     · split <;> simp
 
 end Nomt.Locks2
